@@ -12,10 +12,10 @@ trap cleanup EXIT
 (cd /verif/contracts && for f in $(find github.com/keep-network/keep-core -name zz_verif_contracts.go); do cp "$f" "$W/${f#github.com/keep-network/keep-core/}"; done)
 if [ "$1" = "-p" ]; then
   perl -0pi -e "$2" "$W/$3" || exit 3
-  (cd "$W" && git diff --stat | tail -1)
+  (cd "$W" && if git diff --quiet -- "$3"; then echo "SOURCE-UNCHANGED"; else git diff --stat -- "$3" | tail -1; fi)
 elif [ "$1" = "-e" ]; then
   sed -i -E "$2" "$W/$3" || exit 3
-  (cd "$W" && git diff --stat | tail -1)
+  (cd "$W" && if git diff --quiet -- "$3"; then echo "SOURCE-UNCHANGED"; else git diff --stat -- "$3" | tail -1; fi)
 else
   git -C "$W" apply "$1" || { echo "patch does not apply"; exit 3; }
 fi
